@@ -594,8 +594,17 @@ def correspond(trace, replies):
                 mder = [x for x in d[8].split(",") if x] if len(d) > 8 else []
                 if t["loose"]:
                     # array arithmetic looks symbols up on its own: compare the rows that are nobody's write-back
-                    a = {k2: v for k2, v in mdig.items() if k2 not in mder}
-                    b = {k2: v for k2, v in rd["digest"].items() if k2 not in rd["derived"]}
+                    # (registries made from ONE `lut=` dict share the table but not the derived-symbol sets: a row
+                    # written back through one of them is a write-back for all of them)
+                    ider = set(rd["derived"])
+                    mder_all = set(mder)
+                    for j in range(nreg):
+                        if rl[1 + j] == rl[1 + i]:
+                            ider |= set(t["dumps"][j]["derived"])
+                            dj = dumps[j]
+                            mder_all |= {x for x in (dj[8].split(",") if len(dj) > 8 else []) if x}
+                    a = {k2: v for k2, v in mdig.items() if k2 not in mder_all and k2 not in ider}
+                    b = {k2: v for k2, v in rd["digest"].items() if k2 not in ider and k2 not in mder_all}
                     if a != b:
                         dis.append(f"step {k} {st}: registry {i} rows differ: model {sorted(a.items())[:4]} implementation {sorted(b.items())[:4]}")
                 else:
